@@ -151,6 +151,9 @@ func (p *Portfolio) solve(query string, wantModel bool) SolveResult {
 	record(r)
 	if r.Status == "unsat" || r.Status == "sat" {
 		best = r
+	} else if !wantModel {
+		// cover (vacuity) checks: one cheap attempt is enough, "not refuted" is acceptable
+		best = r
 	} else {
 		// race the others (and z3-new with the long timeout)
 		type res struct{ r SolveResult }
